@@ -23,6 +23,7 @@ func rulePrefix(c *Ctx, prefix string, want map[string]bool) {
 	}
 	c.R.Functions[shortFn(fn)] = true
 	c.R.Functions[shortFn(addP)] = true
+	leaseConst = 0
 	info := InfoOf(fn)
 	ex := NewExplorer(c.P, c.Pure, fn)
 	inner := `invoke:` + reQ(pkgDHCP6) + `\.DHCPv6\.GetInnerMessage\(\$1\)#0`
@@ -153,6 +154,18 @@ func rulePrefix(c *Ctx, prefix string, want map[string]bool) {
 						}
 					default:
 						addb("KEEP.NO-HINT", "the list of hints is neither the request's IAPrefix list nor the placeholder: "+shortName(stripAt(m[1])))
+					}
+				}
+			}
+			// EMPTY-HINT: (net.IP).IsUnspecified is false for a nil address (it compares with the two
+			// all-zero constants): asked of the placeholder's never-assigned address it classifies the
+			// hint-less IA_PD as naming an address
+			if f := call.Call.StaticCallee(); f != nil && f.String() == "(net.IP).IsUnspecified" && len(call.Call.Args) == 1 {
+				counts["equal"]++
+				xs := ex.CanonSingleton(st, call.Call.Args[0]).S
+				if strings.HasPrefix(xs, "new@") {
+					if v, ok := st.ReadLocal(xs); ok && strings.HasPrefix(v, "zero:") {
+						addb("KEEP.EMPTY-HINT", fmt.Sprintf("at %s IsUnspecified is asked of the address of the placeholder hint built for a hint-less IA_PD (never assigned: a nil address, for which it answers false): the hint-less request is classified as naming an address and the client's recorded leases are never handed back", c.P.InstrPos(in)))
 					}
 				}
 			}
@@ -535,6 +548,8 @@ func rulePrefix(c *Ctx, prefix string, want map[string]bool) {
 	}
 }
 
+var leaseConst int64
+
 func checkExpire(c *Ctx, addb func(rule, s string), e string) {
 	m := regexp.MustCompile(`^\(time\.Time\)\.Add(@(?:[\w$]+·)?t\d+)?\(time\.Now(@(?:[\w$]+·)?t\d+)?\(\),(-?\d+)\)$`).FindStringSubmatch(e)
 	if m == nil {
@@ -542,6 +557,12 @@ func checkExpire(c *Ctx, addb func(rule, s string), e string) {
 		return
 	}
 	k, _ := strconv.ParseInt(m[3], 10, 64)
+	// one lease duration: two different constants mean one of them is in the wrong unit
+	if leaseConst == 0 {
+		leaseConst = k
+	} else if leaseConst != k {
+		addb("PD.LIFETIME", fmt.Sprintf("lease expiries are computed with different constants (%d ns and %d ns): one of them is not the lease duration", leaseConst, k))
+	}
 	if k <= 0 || k > 3600*1000000000 {
 		addb("PD.LIFETIME", fmt.Sprintf("lease duration constant %d ns is not in (0, 1h]", k))
 	}
@@ -870,8 +891,103 @@ func rulePoolIsParsedNetwork(c *Ctx, rule string) {
 		} else {
 			c.R.ok(rule, key, c.P.InstrPos(site), shortFn(fn), "the pool is net.ParseCIDR's network, unmodified")
 		}
+		// the allocation size is a prefix length: 0 <= size <= 128 is established before the call
+		// (the constructor only relates it to the pool's length; a size above 128 yields empty masks)
+		ss := statesAt(c, fn, func(in ssa.Instruction) bool { return in == ssa.Instruction(site) }, nil)
+		sizeBad := ""
+		nst := 0
+		for _, st := range ss.Sites[site.(ssa.Instruction)] {
+			nst++
+			sz := ss.Ex.Canon(st, site.Common().Args[1]).S
+			upper, lower := false, false
+			if k, err := strconv.ParseInt(sz, 10, 64); err == nil {
+				upper, lower = k <= 128, k >= 0
+			}
+			for _, f := range st.live {
+				if f.Kind != "lt" || f.X != sz {
+					continue
+				}
+				if k, err := strconv.ParseInt(f.Y, 10, 64); err == nil {
+					if f.Val && k <= 129 {
+						upper = true
+					}
+					if !f.Val && k >= 0 {
+						lower = true
+					}
+				}
+			}
+			if t, ok := site.Common().Args[1].Type().Underlying().(*types.Basic); ok && t.Info()&types.IsUnsigned != 0 {
+				lower = true
+			}
+			if !upper || !lower {
+				sizeBad = fmt.Sprintf("the allocation size %s reaches the allocator without 0 <= size <= 128 having been established (upper=%v lower=%v): sizes above 128 are delegated with an empty mask", shortName(sz), upper, lower)
+			}
+		}
+		skey := fmt.Sprintf("%s allocation size#%d", shortFn(fn), n)
+		if sizeBad != "" {
+			c.R.bad(rule, skey, c.P.InstrPos(site), shortFn(fn), sizeBad)
+		} else if nst > 0 {
+			c.R.ok(rule, skey, c.P.InstrPos(site), shortFn(fn), "0 <= size <= 128 on every abstract path to the constructor")
+		}
 	}
 	if n == 0 {
 		c.R.bad(rule, "NewBitmapAllocator callers", "-", "-", "no caller of the prefix allocator's constructor found")
+	}
+}
+
+// rulePrefixHelpers: the two helpers the handler's bookkeeping rests on.
+// recordKey is the client identifier's wire bytes as a string (injective: a
+// textual rendering can give two identifiers one key); addPrefix appends the
+// prefix to the IA_PD (Options.Add) - replacing (Update) leaves one prefix per
+// IA_PD whatever the client holds.
+func rulePrefixHelpers(c *Ctx, prefix string) {
+	if rk := c.P.Anchor("recordKey"); rk != nil {
+		c.R.Functions[shortFn(rk)] = true
+		exits, _ := ExitsOf(c, rk)
+		bad := ""
+		for _, e := range exits {
+			if len(e.Canon) != 1 {
+				continue
+			}
+			s := stripAt(e.Canon[0])
+			if !regexp.MustCompile(`^conv<string>\(invoke:` + reQ(pkgDHCP6) + `\.DUID\.ToBytes\(\$0\)\)$`).MatchString(s) {
+				bad = "the record key is " + shortName(s) + ", not the client identifier's wire bytes: two identifiers can share a key (and one client's leases answer the other)"
+			}
+		}
+		key := shortFn(rk) + " is the identifier's wire form"
+		if bad != "" {
+			c.R.bad(prefix+"PD.OWN-KEY", key, c.P.Pos(rk.Pos()), shortFn(rk), bad)
+		} else {
+			c.R.ok(prefix+"PD.OWN-KEY", key, c.P.Pos(rk.Pos()), shortFn(rk), "string(duid.ToBytes()): injective")
+		}
+	}
+	if ap := c.P.Anchor("addPrefix"); ap != nil {
+		bad := ""
+		n := 0
+		eachInstr(ap, func(in ssa.Instruction) {
+			call, ok := in.(*ssa.Call)
+			if !ok {
+				return
+			}
+			f := call.Call.StaticCallee()
+			if f == nil || fnPkgPath(f) != pkgDHCP6 || f.Signature.Recv() == nil {
+				return
+			}
+			switch f.Name() {
+			case "Add":
+				n++
+			case "Update", "Del":
+				bad = fmt.Sprintf("addPrefix calls %s at %s: the prefix replaces (or removes) what the IA_PD already carries instead of being added to it", shortFn(f), c.P.InstrPos(in))
+			}
+		})
+		key := shortFn(ap) + " appends"
+		if bad == "" && n == 0 {
+			bad = "addPrefix does not add an option to the IA_PD"
+		}
+		if bad != "" {
+			c.R.bad(prefix+"PD.PROVENANCE", key, c.P.Pos(ap.Pos()), shortFn(ap), bad)
+		} else {
+			c.R.ok(prefix+"PD.PROVENANCE", key, c.P.Pos(ap.Pos()), shortFn(ap), "the prefix is appended to the IA_PD's options")
+		}
 	}
 }
